@@ -2,7 +2,7 @@ import DoitModel.Proofs.C09Ord2
 /-! # C09 — the order of terminal reports, part 3: `InvT` holds in every reachable state of both systems -/
 namespace DoitModel.Run
 
-variable {inp : RunInput} [NoFailDeliver inp] {σ : Name → RS}
+variable {inp : RunInput} {σ : Name → RS}
 
 theorem ng_select {s s' : Sys} {n : Name} {nd : Node} (h : AllNG inp σ s) (hn : s.nodes n = some nd)
     (hd : selDecision inp n nd ≠ .assertFail)
